@@ -1376,7 +1376,7 @@ func (target *BuildTarget) provideFor(other *BuildTarget) ([]BuildLabel, bool) {
 // they are allowed to have optional prefixes before a colon which aren't taken
 // into account for the resulting hash.
 func (target *BuildTarget) UnprefixedHashes() []string {
-	hashes := target.Hashes[:]
+	hashes := slices.Clone(target.Hashes)
 	for i, h := range hashes {
 		if index := strings.LastIndexByte(h, ':'); index != -1 {
 			hashes[i] = strings.TrimSpace(h[index+1:])
